@@ -422,6 +422,9 @@ func (p *Program) canon(fn *Func, x ast.Expr, depth int) string {
 					}
 					return "var:" + o.Name()
 				case "assign":
+					if fn.isDecodePtrTarget(o) {
+						return "&var:req" // a pointer to the variable the message is decoded into
+					}
 					s := p.canon(fn, ds.rhs, depth+1)
 					if ds.multi {
 						if _, isIdx := ast.Unparen(ds.rhs).(*ast.IndexExpr); isIdx && ds.idx == 0 {
@@ -548,7 +551,11 @@ func (p *Program) canon(fn *Func, x ast.Expr, depth int) string {
 		if f, ok := callee.(*types.Func); ok {
 			if fld := p.getterField(f); fld != "" {
 				if r := recvExpr(v); r != nil {
-					return p.canon(fn, r, depth+1) + "." + fld
+					base := p.canon(fn, r, depth+1)
+					if strings.HasPrefix(base, "&var:") || strings.HasPrefix(base, "&local:") || strings.HasPrefix(base, "&recv") || strings.HasPrefix(base, "&param:") {
+						base = base[1:] // (&x).GetF() is x.f
+					}
+					return base + "." + fld
 				}
 			}
 			var args []string
@@ -852,32 +859,99 @@ func litTypeName(info *types.Info, lit *ast.CompositeLit) (string, string) {
 
 // isDecodeTarget: the variable's address is handed to hwebsocket.Msg.DataTo in this function.
 func (f *Func) isDecodeTarget(o types.Object) bool {
+	f.scanDecodeTargets()
+	return f.root().decodeTargets[o]
+}
+
+// isDecodePtrTarget: o is a local pointer variable (v := new(T), v := &T{}, v := P(new(T))) that is
+// handed to Msg.DataTo: it points to the decoded request.
+func (f *Func) isDecodePtrTarget(o types.Object) bool {
+	f.scanDecodeTargets()
+	return f.root().decodePtrTargets[o]
+}
+
+func (f *Func) scanDecodeTargets() {
 	r := f.root()
-	if r.decodeTargets == nil {
-		r.decodeTargets = map[types.Object]bool{}
-		info := r.Info()
-		if r.Body != nil {
-			ast.Inspect(r.Body, func(n ast.Node) bool {
-				call, ok := n.(*ast.CallExpr)
-				if !ok || len(call.Args) != 1 {
-					return true
+	if r.decodeTargets != nil {
+		return
+	}
+	r.decodeTargets = map[types.Object]bool{}
+	r.decodePtrTargets = map[types.Object]bool{}
+	info := r.Info()
+	if r.Body == nil {
+		return
+	}
+	isDataTo := func(call *ast.CallExpr) bool {
+		fobj, _ := calleeObj(info, call).(*types.Func)
+		return fobj != nil && fobj.Name() == "DataTo" && fobj.Pkg() != nil && fobj.Pkg().Path() == pkgHCWS && len(call.Args) == 1
+	}
+	mark := func(arg ast.Expr) {
+		switch v := ast.Unparen(arg).(type) {
+		case *ast.UnaryExpr:
+			if id, ok := ast.Unparen(v.X).(*ast.Ident); ok && v.Op == token.AND {
+				if obj := info.Uses[id]; obj != nil {
+					r.decodeTargets[obj] = true
 				}
-				fobj, _ := calleeObj(info, call).(*types.Func)
-				if fobj == nil || fobj.Name() != "DataTo" || fobj.Pkg() == nil || fobj.Pkg().Path() != pkgHCWS {
-					return true
-				}
-				if u, ok := ast.Unparen(call.Args[0]).(*ast.UnaryExpr); ok {
-					if id, ok := ast.Unparen(u.X).(*ast.Ident); ok {
-						if obj := info.Uses[id]; obj != nil {
-							r.decodeTargets[obj] = true
-						}
-					}
-				}
-				return true
-			})
+			}
+		case *ast.Ident:
+			if obj := info.Uses[v]; obj != nil {
+				r.decodePtrTargets[obj] = true
+			}
 		}
 	}
-	return r.decodeTargets[o]
+	ast.Inspect(r.Body, func(n ast.Node) bool {
+		call, ok := n.(*ast.CallExpr)
+		if !ok {
+			return true
+		}
+		if isDataTo(call) {
+			mark(call.Args[0])
+			return true
+		}
+		// a helper that decodes into one of its parameters (decodeJoined(msg, &req))
+		if g, ok := calleeObj(info, call).(*types.Func); ok && r.progFuncs != nil {
+			if gd := r.progFuncs[g]; gd != nil && gd != r {
+				for k := range gd.decodesIntoParams() {
+					if k < len(call.Args) {
+						mark(call.Args[k])
+					}
+				}
+			}
+		}
+		return true
+	})
+}
+
+// decodesIntoParams: indices of the parameters this function hands to Msg.DataTo.
+func (f *Func) decodesIntoParams() map[int]bool {
+	r := f.root()
+	if r.decodeParams != nil {
+		return r.decodeParams
+	}
+	r.decodeParams = map[int]bool{}
+	if r.Body == nil {
+		return r.decodeParams
+	}
+	info := r.Info()
+	ast.Inspect(r.Body, func(n ast.Node) bool {
+		call, ok := n.(*ast.CallExpr)
+		if !ok || len(call.Args) != 1 {
+			return true
+		}
+		fobj, _ := calleeObj(info, call).(*types.Func)
+		if fobj == nil || fobj.Name() != "DataTo" || fobj.Pkg() == nil || fobj.Pkg().Path() != pkgHCWS {
+			return true
+		}
+		if id, ok := ast.Unparen(call.Args[0]).(*ast.Ident); ok {
+			if v, ok := info.Uses[id].(*types.Var); ok {
+				if k := paramIndex(r, v); k >= 0 {
+					r.decodeParams[k] = true
+				}
+			}
+		}
+		return true
+	})
+	return r.decodeParams
 }
 
 // indexLoopOver: obj is the index variable of a canonical index loop of this function (see
